@@ -16,6 +16,9 @@ PY5  None conflated with a falsy value: a truth test (``if x`` / ``if not x`` / 
      ``Optional[T]`` where T has falsy instances that are legitimate values: int / float / str / bytes, an ``IntEnum`` (or int-valued Enum mixin) with a
      zero member, or a class that defines ``__len__`` / ``__bool__``.  (This code base tests ``is None`` throughout; plain containers are left alone,
      "None or empty" is a common deliberate reading there.)
+PY6  float stored into an integer array: ``np.fromiter / np.array / np.asarray(<elements>, dtype=int)`` whose element expression is float-typed (a property /
+     field / function annotated ``float``, e.g. ``end_time``), or an array created with an integer fill (``np.full(n, 0)``, ``np.zeros(n, dtype=int)``) that is later
+     assigned such an expression: numpy truncates towards zero without a word.
 PY4  replicated or default mutable: a mutable display as parameter default that the function changes in place; ``[<mutable display>] * n``;
      ``dict.fromkeys(keys, <mutable display>)``.
 """
@@ -397,6 +400,89 @@ def replicated_mutables(f: FunctionInfo) -> Iterator[Slip]:
 
 
 # ---------------------------------------------------------------------------------------------------------------------
+_INT_DTYPES = {"int", "np.int_", "np.int64", "np.int32", "numpy.int64", "numpy.int_", "'int'", "'int64'", "np.intp", "np.uint64", "np.uint32"}
+
+
+def _float_names(model: Model) -> Set[str]:
+    """attribute / function names that are float-typed wherever they are defined in the package"""
+    cache = model.__dict__.setdefault("_float_names", None)
+    if cache is not None:
+        return cache
+    kinds: Dict[str, Set[str]] = {}
+
+    def note(name, ann):
+        if ann is None:
+            kinds.setdefault(name, set()).add("?")
+            return
+        t = ast.unparse(ann).replace("typing.", "")
+        kinds.setdefault(name, set()).add("float" if t in ("float", "Optional[float]") else "other")
+    for c in model.all_classes():
+        for nm, g in c.properties.items():
+            if "abstractmethod" not in g.decorators or True:
+                note(nm, g.node.returns)
+        for nm, fi in c.own_fields.items():
+            note(nm, fi.annotation)
+    for f in model.all_functions():
+        if f.kind in ("method", "function", "staticmethod", "classmethod"):
+            note(f.name, f.node.returns)
+    out = {n for n, ks in kinds.items() if ks == {"float"}}
+    model.__dict__["_float_names"] = out
+    return out
+
+
+def float_into_int_array(model: Model, f: FunctionInfo) -> Iterator[Slip]:
+    fl = _float_names(model)
+
+    def floaty(e: ast.AST) -> Optional[str]:
+        for n in ast.walk(e):
+            if isinstance(n, ast.Attribute) and n.attr in fl:
+                return n.attr
+            if isinstance(n, ast.Call):
+                nm = n.func.attr if isinstance(n.func, ast.Attribute) else n.func.id if isinstance(n.func, ast.Name) else ""
+                if nm in fl:
+                    return nm + "()"
+            if isinstance(n, ast.Constant) and isinstance(n.value, float) and not float(n.value).is_integer():
+                return repr(n.value)
+        return None
+
+    def np_call(n: ast.AST) -> Optional[str]:
+        if isinstance(n, ast.Call) and isinstance(n.func, ast.Attribute) and isinstance(n.func.value, ast.Name) and n.func.value.id in ("np", "numpy"):
+            return n.func.attr
+        return None
+
+    def int_dtype(call: ast.Call) -> bool:
+        for k in call.keywords:
+            if k.arg == "dtype" and ast.unparse(k.value) in _INT_DTYPES:
+                return True
+        return False
+    int_arrays: Dict[str, ast.AST] = {}
+    for n in ast.walk(f.node):
+        nm = np_call(n)
+        if nm in ("fromiter", "array", "asarray") and int_dtype(n) and n.args:
+            el = n.args[0]
+            inner = el.elt if isinstance(el, (ast.GeneratorExp, ast.ListComp)) else el
+            why = floaty(inner)
+            if why:
+                yield Slip("PY6", f, n, f"`{ast.unparse(n)[:70]}` stores {why} (a float) with an integer dtype: values are truncated towards zero, so 1.25 and 1.75 become equal",
+                           f"int-array:{why}")
+        if isinstance(n, (ast.Assign, ast.AnnAssign)) and n.value is not None and np_call(n.value) in ("full", "zeros", "ones", "empty", "full_like", "zeros_like"):
+            c = n.value
+            integer = int_dtype(c) or (np_call(c) == "full" and len(c.args) >= 2 and isinstance(c.args[1], ast.Constant) and isinstance(c.args[1].value, int)
+                                       and not isinstance(c.args[1].value, bool) and not any(k.arg == "dtype" for k in c.keywords))
+            tg = n.targets[0] if isinstance(n, ast.Assign) and len(n.targets) == 1 else getattr(n, "target", None)
+            if integer and isinstance(tg, ast.Name):
+                int_arrays[tg.id] = n
+    for n in ast.walk(f.node):
+        if isinstance(n, ast.Assign):
+            for t in n.targets:
+                if isinstance(t, ast.Subscript) and isinstance(t.value, ast.Name) and t.value.id in int_arrays:
+                    why = floaty(n.value)
+                    if why:
+                        made = int_arrays[t.value.id]
+                        yield Slip("PY6", f, n, f"`{t.value.id}` is created as an integer array (`{ast.unparse(made.value)[:50]}`) and `{ast.unparse(n)[:60]}` stores {why} (a float) into it: "
+                                                  "the value is truncated towards zero", f"int-array:{t.value.id}")
+
+
 _SCALARS = {"int", "float", "str", "bytes", "complex", "QID", "QName"}
 
 
@@ -500,6 +586,7 @@ def scan(model: Model, keep_module) -> Tuple[List[Slip], int]:
         for gen in (late_binding_closures, one_shot_iterators, stored_then_mutated, replicated_mutables):
             out.extend(gen(f))
         out.extend(none_conflated(model, f))
+        out.extend(float_into_int_array(model, f))
     return out, n
 
 
